@@ -655,6 +655,9 @@ func genC01(r *simrt.Rand, tier string, idx uint64) Workload {
 	alpha := drawAlpha(r, ad)
 	w.Alpha = alpha
 	w.Init = genInit(r, ad, alpha)
+	if ad.name == "bstree" && r.Intn(3) == 0 {
+		w.Init = bushyKeys(r)
+	}
 	if r.Intn(7) == 0 {
 		w.Pre = genPre(r, ad, alpha)
 	}
@@ -717,6 +720,17 @@ func genC01(r *simrt.Rand, tier string, idx uint64) Workload {
 
 var mutatorOps = map[string]bool{"Push": true, "Pop": true, "Clear": true, "Delete": true, "Upsert": true, "Put": true,
 	"Enqueue": true, "Dequeue": true, "Set": true, "Update": true}
+
+// bushyKeys returns 3-7 distinct keys in a drawn insertion order: a search tree with nodes that
+// have two children (random contents over a 2-3 value alphabet are mostly duplicates and chains).
+func bushyKeys(r *simrt.Rand) []int {
+	k := []int{3, 3, 4, 5, 7}[r.Intn(5)]
+	p := r.Perm(k)
+	for i := range p {
+		p[i]++
+	}
+	return p
+}
 
 // genPre draws a "grow, then drain" pre-history for the types that can shrink.
 func genPre(r *simrt.Rand, ad *adapter, alpha int) []OpCall {
@@ -814,6 +828,9 @@ func genC02(r *simrt.Rand, tier string, idx uint64) Workload {
 			v--
 		}
 		w.Init = append(w.Init, v)
+	}
+	if ad.name == "bstree" && r.Intn(2) == 0 {
+		w.Init = bushyKeys(r)
 	}
 	if r.Intn(3) == 0 {
 		w.Pre = genPre(r, ad, alpha)
